@@ -1023,7 +1023,7 @@ fn run_muted(ctx: &CheckCtx) -> CheckResult {
     let mut res = CheckResult::new("exploration");
     let thorough = ctx.tier == Tier::Thorough;
     let nthreads = par::ncpu();
-    let n: u64 = if thorough { 1 << 21 } else { 1 << 16 };
+    let n: u64 = if thorough { 1 << 22 } else { 1 << 16 };
     let s0 = ctx.seed.wrapping_mul(n);
     let deadline = ctx.start + if thorough { Duration::from_secs(18 * 60) } else { Duration::from_secs(30) };
     let mut exhaustive = true;
